@@ -189,6 +189,8 @@ def solver_residual_ok(fn, r):
     from spectrum import CHOLESKY
     if fn == 'HERMTOEP':
         T0 = float.fromhex(r['T0']); T = vlib.unhexv(r['T']); Z = as_kind(vlib.unhexv(r['Z']), r.get('Zkind'))
+        if r.get('Tkind') == 'real':
+            T = np.real(T).astype(float)
         X = HERMTOEP(T0, T, Z); M = toeplitz_matrix(np.concatenate(([T0], T)))
         return np.max(np.abs(M @ X - Z)) <= 1e-8 * np.linalg.cond(M) * max(1, np.max(np.abs(Z)))
     if fn == 'TOEPLITZ':
@@ -414,10 +416,14 @@ def run(ctx):
         p = int(rng.integers(1, ctx.q(12, 30))); N = p + int(rng.integers(4, 40))
         x = rng.standard_normal(N) + 1j * rng.standard_normal(N)
         r = np.array([np.sum(x[k:] * np.conj(x[:N - k])) / N for k in range(p + 1)]); r[0] = np.real(r[0]) * 1.05
+        tkind = 'complex'
+        if it % 3 == 2:
+            # real symmetric systems given as REAL-dtype arrays (the solvers allocate by dtype)
+            xr = np.real(x); r = np.array([np.sum(xr[k:] * xr[:N - k]) / N for k in range(p + 1)]); r[0] = r[0] * 1.05; tkind = 'real'
         if it % 4 == 1 and p >= 2:
             # structured positive-definite systems whose recursions meet EXACT zeros (white, even lags only, geometric, one lag)
             from props._loopir import structured_acorr
-            r = structured_acorr(rng, p); ctx.count('search/structured-system')
+            r = structured_acorr(rng, p); ctx.count('search/structured-system'); tkind = 'complex'
         zk = str(rng.choice(['complex', 'complex', 'real', 'int']))
         if zk == 'complex':
             Z = rng.standard_normal(p + 1) + 1j * rng.standard_normal(p + 1)
@@ -426,7 +432,8 @@ def run(ctx):
         else:
             Z = rng.integers(-5, 6, size=p + 1); Z[0] = 1
         ctx.count('search/rhs-dtype/' + zk)
-        rep = {'function': 'HERMTOEP', 'T0': float(np.real(r[0])).hex(), 'T': vlib.hexv(r[1:]), 'Z': vlib.hexv(Z), 'Zkind': zk}
+        rep = {'function': 'HERMTOEP', 'T0': float(np.real(r[0])).hex(), 'T': vlib.hexv(r[1:]), 'Z': vlib.hexv(Z), 'Zkind': zk, 'Tkind': tkind}
+        ctx.count('search/HERMTOEP/T-dtype-' + tkind)
         ctx.case(('search-herm', r.tobytes(), Z.tobytes()), nontrivial=(p >= 2)); ctx.count('search/HERMTOEP')
         try:
             if not solver_residual_ok('HERMTOEP', rep):
